@@ -91,3 +91,15 @@ Definition rdbg_trace (c : res rworld) (o : rop) : list (list Z) :=
   | Ok w => let '(_, _, es) := rexec w o in dedup (map rdir_flat (snd w :: rtrace_states (snd w) es))
   | Err _ => []
   end.
+
+(* iter_arrays evaluated on observed files (through a handle opened on them) *)
+Definition iter_flat (r : res (list (list Z))) : list Z :=
+  match r with
+  | Ok l => 0 :: zlen l :: concat (map (fun b => zlen b :: b) l)
+  | Err e => [exc_code e]
+  end.
+Definition rchk_iter (d : rdir) (start : Z) (stop : option Z) (step : Z) (obs : list Z) : bool :=
+  match ropen d R with
+  | Ok h => zlist_eqb (iter_flat (riter_arrays h d start stop step)) obs
+  | Err _ => false
+  end.
